@@ -45,7 +45,7 @@ def run(ctx, coq_ok):
     # ---------- (1) correspondence
     dls = ["ansi", "tsql", "mysql", "postgres", "bigquery", "snowflake", "sparksql", "oracle"] if ctx.tier == "quick" else corpus.dialects()
     pool = ["select", " ", "\n", "a", "1", "'x y'", "'unterminated", "/* c\n d */", "-- c\n", ",", "(", ")", "\x00", "é", "\U0001F600", "`q`", '"Q"', "$$", "@v", ":p",
-            "1.5e3", "<>", "||", "::", "[", "]", "\t", "\r\n", "#", "\\", "{", "}"]
+            "1.5e3", "<>", "||", "::", "[", "]", "\t", "\r\n", "\r", "x\ry", "#", "\\", "{", "}"]
     cases, impl, terms = [], [], []
     nper = 6 if ctx.tier == "quick" else 20
     for d in dls:
@@ -102,6 +102,9 @@ def run(ctx, coq_ok):
         jobs.append((rng.choice(["ansi", "snowflake", "bigquery", "postgres"]), "jinja", i % 2, "jinja-gen", corpus.gen_jinja(rng)))
     for i in range(nt // 2):
         jobs.append(("ansi", "python", None, "pyformat-gen", corpus.gen_pyformat(rng)))
+    # rendered text that contains characters the source normalisation does not touch (a lone CR produced by the template)
+    for s_ in ["SELECT {{ 'a\\rb' }} FROM t\n", "SELECT {{ \"x\\r\" }}, 1\n", "{{ '\\r' }}SELECT 1\n", "SELECT {{ '\\x0b\\x0c' }} 1\n"]:
+        jobs.append(("ansi", "jinja", 0, "jinja-control-chars", s_))
     for style in corpus.PLACEHOLDER_STYLES:
         for _ in range(2 if ctx.tier == "quick" else 8):
             jobs.append(("ansi", "placeholder", style, "placeholder-" + style, corpus.gen_placeholder(rng, style)))
